@@ -10,9 +10,9 @@ import torf._utils as tutils
 
 from common import Model, Scratch
 
-FILE_NAMES = ['a.txt', 'A.txt', 'B.txt', 'b.TXT', 'c.jpg', 'C.JPG', 'readme', 'README', '.hidden', '.git', 'data.bin', 'x', 'X', 'with space.txt',
+FILE_NAMES = ['...', '....', '..x', 'a.txt', 'A.txt', 'B.txt', 'b.TXT', 'c.jpg', 'C.JPG', 'readme', 'README', '.hidden', '.git', 'data.bin', 'x', 'X', 'with space.txt',
               'dot.', 'z9', '日本.txt', '文', 'a-b', 'a_b', '10', '9', '~tmp']
-DIR_NAMES = ['sub', 'Sub', 'SUB', '.cache', 'docs', 'a', 'A', 'deep', 'with space', '文件', 'dot.', 'b']
+DIR_NAMES = ['...', 'sub', 'Sub', 'SUB', '.cache', 'docs', 'a', 'A', 'deep', 'with space', '文件', 'dot.', 'b']
 TOP_NAMES = ['Top', 'top', '.Top', 'My Album', 'name.', 'T文', 'x', 'CONTENT']
 GLOBS = ['*.txt', '*.TXT', '*.jpg', '{N}/sub/*', '{n}/SUB/*', '*/[a-c]*', '*?.bin', '[!a]*', '{N}/*', '*readme', '*/docs/*', '{N}/?', '*[0-9]', '*/a/*', '*a*',
          '{N}/[!.]*', '*.[jt][px][gt]', 'nomatch*']
